@@ -1,7 +1,8 @@
 (* C14 — results do not depend on how the file happens to be written. *)
 From Coq Require Import List Arith Bool String Permutation.
 From PyHam Require Import Tax Ortho Loader Mapper Preds Hist Filter Spell.
-From PyHam.proofs Require Import LoaderFacts ExplicitFacts FilterFacts NamingFacts SpellFacts HpermFacts.
+From PyHam Require Import Whole.
+From PyHam.proofs Require Import LoaderFacts ExplicitFacts FilterFacts NamingFacts SpellFacts HpermFacts WholeFacts DeclOrderFacts.
 Import ListNotations.
 
 (* The listed rewritings are covered as follows.
@@ -16,10 +17,12 @@ Import ListNotations.
    listing the members in different orders load to hierarchies matching one and the same history
    (c14_reordered_files); re-ordering the families with respect to a filter is c14_family_order; the member
    genes of every family are independent of the spelling altogether (c14_members_any_spelling).
-   PARTIAL only in this respect: the order of species blocks and of <gene> declarations and Python's hash
-   seed / set iteration order are outside the model: every place where the code iterates a set is compared
-   order-free, and the check re-runs the real code under several PYTHONHASHSEED values and with species and
-   genes shuffled. *)
+   Re-ordering the <species> blocks and the <gene> declarations inside them: the re-ordered document is
+   consistent for the same histories, so both orders load and their top-level HOGs match the same histories
+   (c14_declaration_order).
+   Python's hash seed and set iteration order do not exist in the model (the only remaining PARTIAL aspect):
+   every place where the code iterates a set is compared order-free, and the check re-runs the real code
+   under several PYTHONHASHSEED values. *)
 Theorem c14_any_two_spellings : forall t d d' hs,
   Forall (species_sane t) (d_species d) -> NoDup (declared d) ->
   d_species d' = d_species d ->
@@ -52,6 +55,14 @@ Print Assumptions c14_order_irrelevant.
 Theorem c14_reordered_files : forall h h' x x', hperm h h' -> matches h x -> matches h' x' -> matches h x /\ matches h x'.
 Proof. exact reordered_same. Qed.
 Print Assumptions c14_reordered_files.
+
+Theorem c14_declaration_order : forall t d d' hs,
+  sp_sim d d' -> d_groups d' = d_groups d -> consistent t d hs ->
+  exists l l', load t d = Ok l /\ load t d' = Ok l' /\
+    Forall2 (fun h top => matches h (snd top) /\ htax (snd top) = xtax h /\ wf_node t (snd top) = true) hs (l_tops l) /\
+    Forall2 (fun h top => matches h (snd top) /\ htax (snd top) = xtax h /\ wf_node t (snd top) = true) hs (l_tops l').
+Proof. exact declaration_order_same_result. Qed.
+Print Assumptions c14_declaration_order.
 
 Theorem c14_explicit_any_order : forall t genes h,
   WFh t genes h ->
